@@ -972,6 +972,9 @@ func propC17(c *Ctx) string {
 	c09WaitLock(c, v, "C17")
 	dieRule(c, v, "C17/DIE", "client", 8)
 	c17Resub(c, v)
+	// the service's book of subscriptions is a topic tree edited with Set / Empty: emptying one filter must not take
+	// other filters (below it) with it
+	c05Prune(c, "C17/PRUNE")
 	// futures survive reconnects only if the resumed session's packets are all retransmitted
 	c09Resend(c, v)
 	c.NotDecide("behaviour over failure schedules", "Start/Stop races from several goroutines", "backoff timing", "that the broker accepts the resubscription")
